@@ -760,7 +760,7 @@ async fn pair_from(net: &Net, src: IpAddr) -> std::io::Result<(TcpStream, TcpStr
         return Err(std::io::Error::other("accepted a foreign connection"));
     }
     // the remote end goes away with a reset: no TIME_WAIT entry is left behind
-    let _ = c.set_linger(Some(Duration::from_secs(0)));
+    let _ = socket2::SockRef::from(&c).set_linger(Some(std::time::Duration::from_secs(0)));
     Ok((c, s))
 }
 
